@@ -540,3 +540,45 @@ Proof.
     destruct (_ && _); [|exact Hdef].
     apply (Htail _ _ r' rgl_fragment_tail_nolonger). cbn [length]. lia.
 Qed.
+
+(* ------------------------------------------------------------------ document.rs: one step of the definition loop *)
+Lemma rl_gen_document_step f k : rl_gen (g_document_step f k).
+Proof. split; [apply (gg_document_step CT CT_ok)|apply (gg_document_step CX CX_ok)]. Qed.
+
+Lemma rl_document_step f s b s' t :
+  rl_ok s -> tr_ok (ps_rec s) -> ps_cur s = Some t -> g_document_step f (tok_kind t) s = POk (b, s') ->
+  (tok_kind t = TkEof -> b = false /\ s' = s) /\
+  (tok_kind t <> TkEof -> b = true /\
+     rl_sound (rl_acc (rgl_definition LP)) s s' /\ rl_complete (rl_acc (rgl_definition LP)) s s').
+Proof.
+  intros Hok Ht Hc E. pose proof Hok as [Hinv Ha]. pose proof (rl_sigs_head _ _ Hinv Hc) as Hhead.
+  assert (Hi : p_is_ignored_kind (tok_kind t) = false).
+  { destruct Hinv as [(t' & Hc' & Hi') _]. rewrite Hc in Hc'. injection Hc' as <-. exact Hi'. }
+  unfold g_document_step in E.
+  destruct (tok_kind t) eqn:Hk; try (cbn in Hi; discriminate Hi); cbn [tkind_eqb] in Hhead;
+    (split; [intros Heq; try discriminate Heq|intros Hneq; try (exfalso; apply Hneq; reflexivity)]).
+  all: try (apply bind_ok in E as (? & s1 & E1 & E); unfold p_ret in E; injection E as <- <-; split; [reflexivity|];
+            apply rl_post_dirty; [eapply rl_err_and_pop_run; eauto|rewrite Hhead; reflexivity]).
+  - (* `{` *)
+    unfold p_bind at 1 in E. rewrite (peek_data_some t s Hc) in E.
+    apply bind_ok in E as (? & s1 & E1 & E). unfold p_ret in E. injection E as <- <-. split; [reflexivity|].
+    assert (Hne : tok_kind t <> TkEof) by congruence.
+    destruct (rl_sigs_tok _ _ Hinv Hc Hne) as (_ & Hokt & _). rewrite Hk in Hokt. cbn [rl_tok_ok] in Hokt.
+    apply p_str_eqb_eq in Hokt. eapply rl_select_definition; eauto. rewrite Hhead. cbn. exact Hokt.
+  - (* end of input *)
+    unfold p_ret in E. injection E as <- <-. auto.
+  - (* a Name *)
+    unfold p_bind at 1 in E. rewrite (peek_data_some t s Hc) in E.
+    apply bind_ok in E as (? & s1 & E1 & E). unfold p_ret in E. injection E as <- <-. split; [reflexivity|].
+    eapply rl_select_definition; eauto. rewrite Hhead. reflexivity.
+  - (* a string: the dispatch looks at the token after it *)
+    assert (Hne : tok_kind t <> TkEof) by congruence.
+    destruct (rl_peek_token_n2 _ _ Hinv Hc Hne) as (t2 & Hp2 & Hv2).
+    unfold p_bind at 1 in E. unfold p_peek_data_n in E. unfold p_bind at 1 in E. rewrite Hp2 in E.
+    cbn [p_ret option_map] in E.
+    apply bind_ok in E as (? & s1 & E1 & E). unfold p_ret in E. injection E as <- <-. split; [reflexivity|].
+    eapply rl_select_definition; eauto. rewrite Hhead.
+    destruct (rl_sig (ps_items s)) as [|[k2 d2] r2]; cbn [rl_dispatch].
+    + exact (proj2 Hv2).
+    + destruct Hv2 as (_ & Hd & _ & Hok2). auto.
+Qed.
